@@ -55,7 +55,12 @@ func VerifRunFrame() {
 	timerOn := timerMode != 0
 	withDisplay := vCfg("display") != 0
 	lcdOn := vCfg("lcd") != 0
-	gb := newVerifGameboy(verifNopImage(), withDisplay, false)
+	img := verifNopImage()
+	stop := vCfg("stop") != 0
+	if stop {
+		img[0x100] = 0x10 // STOP: the CPU executes nothing more, the hardware keeps running
+	}
+	gb := newVerifGameboy(img, withDisplay, false)
 	if withDisplay {
 		gb.display.CloseAfter = int(vU8("closeAfter") & 3)
 	}
@@ -90,7 +95,11 @@ func VerifRunFrame() {
 	// the context may already be cancelled: a frame that has started still runs to its end (Run polls between frames)
 	ret := gb.runFrame(newVerifCtx(vCfg("cancelled")))
 
-	vAssert("cpu-17556-cycles", gb.cpu.VerifPC() == pc0+17556)
+	if stop {
+		vAssert("cpu-stopped", gb.cpu.VerifPC() == pc0+1)
+	} else {
+		vAssert("cpu-17556-cycles", gb.cpu.VerifPC() == pc0+17556)
+	}
 	vAssert("timer-17556-cycles", gb.timer.VerifCounter() == div0+4*17556%65536)
 	vAssert("memory-clock-17556-cycles", gb.mapper.VerifRtcTicks() == r0+17556)
 	vAssert("audio-17556-cycles", gb.audio.VerifTicks() == a0+4*17556)
